@@ -46,6 +46,7 @@ ImplDesigned ==
       emptyMutateWithGraphs |-> FALSE,  \* F11: empty mutate message per tick once relation graphs exist
       refBeforeSpawnUnmarked|-> FALSE,  \* F8: entity first seen as a reference never gets the marker
       seedLeakHidden        |-> FALSE,  \* seeded defect (no finding): hidden entities are not filtered from changes
+      seedIgnoreMapping     |-> FALSE,  \* seeded: the client ignores entity mappings (a second entity is spawned)
       seedEvNoQueue         |-> FALSE,  \* seeded: the client hands dependent events to game logic without waiting for their tick
       seedEvNoExclude       |-> FALSE,  \* seeded: a late joiner is not excluded from already buffered events
       seedEvUnauth          |-> FALSE ] \* seeded: dependent events are flushed to unauthorized clients
@@ -99,6 +100,9 @@ EntInit == [used |-> FALSE, alive |-> FALSE, repl |-> FALSE, markerAdd |-> 0, co
 NetInit == [upd |-> <<>>, mut |-> <<>>, ack |-> <<>>, rxUpd |-> <<>>, rxMut |-> <<>>, srxAck |-> <<>>]
 
 CliInit == [status |-> "Disconnected", updTick |-> 0, ents |-> EmptyFn, buf |-> <<>>,
+            pre |-> EmptyFn,        \* entities the client spawned in advance: name |-> alive
+            preUsed |-> {},         \* pre-spawned entities the server has already mapped (one mapping each)
+            extra |-> 0,            \* replicated client entities that are not in the entity map
             lastNotDisc |-> FALSE, panicked |-> FALSE]
 
 InitState ==
@@ -445,10 +449,21 @@ DeliverAckEnabled(st, c) == st.net[c].ack # <<>> /\ st.srv.cl[c].conn /\ st.srv.
 ----------------------------------------------------------------------------
 (* client: receive_replication *)
 
-NewEnt(tick, marker) == [alive |-> TRUE, marker |-> marker, comps |-> EmptyFn, hist |-> tick]
+NewEnt(tick, marker) == [alive |-> TRUE, marker |-> marker, comps |-> EmptyFn, hist |-> tick, pre |-> None]
+
+\* mappings are applied before anything else in the message: a live pre-spawned entity is adopted
+\* (marker inserted, no confirm history yet), a dead one is ignored and a fresh entity is spawned later
+ApplyMappings(cs, m) ==
+    LET one(ents, mp) ==
+            IF Get(cs.pre, mp[2], FALSE)
+            THEN With(ents, mp[1], [alive |-> TRUE, marker |-> TRUE, comps |-> EmptyFn, hist |-> -1, pre |-> mp[2]])
+            ELSE ents
+    IN IF Impl.seedIgnoreMapping THEN cs ELSE [cs EXCEPT !.ents = FoldSet(one, @, m.maps)]
 
 ApplyDespawns(cs, m) ==
-    [cs EXCEPT !.ents = WithoutAll(@, DOMAIN m.desp)]
+    LET gone == {cs.ents[e].pre : e \in (DOMAIN m.desp) \cap (DOMAIN cs.ents)} \ {None}
+    IN [cs EXCEPT !.ents = WithoutAll(@, DOMAIN m.desp),
+                  !.pre = [p \in DOMAIN @ |-> IF p \in gone THEN FALSE ELSE @[p]]]
 
 \* removals / changes for one entity: resolve (or spawn on first sight), confirm the tick, edit components
 TouchEnt(ents, e, tick) ==
@@ -471,7 +486,7 @@ ApplyChanges(cs, m) ==
     IN [cs EXCEPT !.ents = FoldSet(one, @, DOMAIN m.chg)]
 
 ApplyUpdate(cs, m) ==
-    Then(ApplyDespawns([cs EXCEPT !.updTick = m.tick], m), LAMBDA c1 :
+    Then(ApplyDespawns(ApplyMappings([cs EXCEPT !.updTick = m.tick], m), m), LAMBDA c1 :
     Then(ApplyRemovals(c1, m), LAMBDA c2 : ApplyChanges(c2, m)))
 
 \* BufferedMutations::insert keeps the buffer sorted by message tick, newest first;
@@ -533,6 +548,32 @@ CliFrameF(st, c) ==
        ELSE Then(cs2, LAMBDA x : CliFrameConnected(st, c, x))
 
 ----------------------------------------------------------------------------
+(* pre-spawned client entities (ClientEntityMap) *)
+
+PrespawnF(st, c, p) == [st EXCEPT !.cli[c].pre = With(@, p, TRUE)]
+PrespawnEnabled(st, c, p) == p \notin DOMAIN st.cli[c].pre /\ st.cli[c].status = "Connected"
+
+\* the client despawns its own entity (before or after it was adopted)
+KillPreF(st, c, p) ==
+    [st EXCEPT !.cli[c].pre[p] = FALSE,
+               !.cli[c].ents = [e \in DOMAIN @ |-> IF @[e].pre = p
+                                                    THEN [@[e] EXCEPT !.alive = FALSE, !.marker = FALSE,
+                                                                      !.comps = EmptyFn, !.hist = -1]
+                                                    ELSE @[e]]]
+\* (only before adoption: despawning a replicated entity on the client is outside every property)
+KillPreEnabled(st, c, p) ==
+    p \in DOMAIN st.cli[c].pre /\ st.cli[c].pre[p] /\ \A e \in DOMAIN st.cli[c].ents : st.cli[c].ents[e].pre # p
+
+\* server game logic registers the correspondence; it travels with the next update message
+MapPreF(st, c, e, p) == [st EXCEPT !.srv.cl[c].pendingMap = Append(@, <<e, p>>), !.cli[c].preUsed = @ \cup {p, e}]
+MapPreEnabled(st, c, e, p) ==
+    /\ st.srv.cl[c].conn /\ st.srv.cl[c].auth /\ st.srv.world[e].alive /\ p \in DOMAIN st.cli[c].pre
+    /\ e \notin DOMAIN st.srv.cl[c].mutTick      \* the premise of C16: not later than first visibility
+    \* one mapping per server entity and per pre-spawned entity
+    /\ \A i \in 1..Len(st.srv.cl[c].pendingMap) : st.srv.cl[c].pendingMap[i][1] # e /\ st.srv.cl[c].pendingMap[i][2] # p
+    /\ p \notin st.cli[c].preUsed /\ e \notin st.cli[c].preUsed
+
+----------------------------------------------------------------------------
 (* sessions *)
 
 ConnectF(st, c) ==
@@ -540,21 +581,22 @@ ConnectF(st, c) ==
                !.cli[c].status = "Connected"]
 ConnectEnabled(st, c) == ~st.srv.cl[c].conn /\ st.cli[c].status = "Disconnected" /\ st.srv.running
 
+\* the client side of a lost connection: status, purge, the game forgets the entities of the session
+ClientDropOf(cs) ==
+    [cs EXCEPT !.status = "Disconnected",
+               !.pre = EmptyFn, !.preUsed = {},
+               !.ents = [e \in DOMAIN @ |-> [@[e] EXCEPT !.alive = FALSE, !.marker = FALSE,
+                                                         !.comps = EmptyFn, !.hist = -1, !.pre = None]]]
+
 \* both ends drop the connection; the transport and everything in flight is gone; the game
 \* forgets the replicated entities of the ended session
 DisconnectF(st, c) ==
     [st EXCEPT !.srv.cl[c] = SrvClientInit,
                !.net[c] = NetInit,
-               !.cli[c].status = "Disconnected",
-               !.cli[c].ents = [e \in DOMAIN @ |-> [@[e] EXCEPT !.alive = FALSE, !.marker = FALSE,
-                                                                !.comps = EmptyFn, !.hist = -1]]]
+               !.cli[c] = ClientDropOf(@)]
 DisconnectEnabled(st, c) == st.srv.cl[c].conn
 
-\* the client side of a lost connection: status, purge, the game forgets the entities of the session
-ClientDrop(cs) ==
-    [cs EXCEPT !.status = "Disconnected",
-               !.ents = [e \in DOMAIN @ |-> [@[e] EXCEPT !.alive = FALSE, !.marker = FALSE,
-                                                         !.comps = EmptyFn, !.hist = -1]]]
+ClientDrop(cs) == ClientDropOf(cs)
 
 \* the server stops: every connection is gone with it (the client entities on the server are
 \* despawned by `reset` in the server's next frame)
